@@ -9,6 +9,8 @@ Not decided: the diffusion equation itself, the continuum pole, the scaling (num
   * the whole module is dimension-generic;
   * group average in __call__: the sum runs over the stored group operations and is divided by their number, both
     arrays being filled for every operation of the crystal;
+  * SetRates is memoryless: every attribute it writes is written on every path before it is read, or is reused only under
+    tests that depend on every argument the stored value depends on (G is a function of the current rates);
   * the state written by SetRates covers everything __call__, Diffusivity and biascorrection read (no observer reads an
     attribute that only another, unrelated routine sets).
 """
@@ -17,7 +19,7 @@ import ast
 from ..model import AnalysisError, dotted, unparse, walk_local
 from ..engines import exchange, dimgen, parity
 from ..engines.linform import swap_sigma, canon, rename
-from ._common import dim_generic, names_and_calls_resolve
+from ._common import dim_generic, names_and_calls_resolve, memoryless_setters
 from .C02 import _rate_element
 
 
@@ -125,6 +127,8 @@ def run(model, rep, tier):
         rep.ob('state-complete', mod, fn, 'GFCrystalcalc.%s reads only attributes set by __init__/SetRates' % m, not missing,
                '' if not missing else 'reads %s which neither __init__ nor SetRates assigns' % missing, engine='parity',
                qual='GFCrystalcalc.' + m)
+    # ---- SetRates is memoryless: G depends on the current rates only
+    memoryless_setters(model, rep, [('GFcalc', 'GFCrystalcalc', 'SetRates')])
     dim_generic(model, rep, [('GFcalc', '')], min_functions=18)
     names_and_calls_resolve(model, rep, [('GFcalc', 'GFCrystalcalc.'), ('GFcalc', 'Fnl_p.'), ('GFcalc', 'Fnl_u.')])
 
@@ -150,6 +154,9 @@ BREAKERS = [
     (G, "        gIFT /= self.NG", "        gIFT /= self.N", 'group-average'),
     (G, "TaylorTag = 'T3D' if crys.dim == 3 else 'T2D'", "TaylorTag = 'T3D'", 'taylor-selection'),
     (G, "self.exp_dxq(np.dot(gop, dx))", "self.exp_dxq(dx)", 'group-average'),
+    (G, "        self.g_Taylor_fnlu = {(n, l): Fnl_u(n, l, self.pmax, prefactor, d=self.crys.dim)\n                              for (n, l) in self.g_Taylor.nl()}\n",
+     "        if getattr(self, 'lastD', None) is None or not np.allclose(self.D / self.maxrate, self.lastD):\n            self.lastD = self.D / self.maxrate\n"
+     "            self.g_Taylor_fnlu = {(n, l): Fnl_u(n, l, self.pmax, prefactor, d=self.crys.dim) for (n, l) in self.g_Taylor.nl()}\n", 'state-reuse-keyed'),
 ]
 NEUTRALS = [
     (G, "np.sqrt(pre[w0] * pre[w1])", "np.sqrt(pre[w1] * pre[w0])"),
